@@ -138,7 +138,6 @@ impl Translator {
                 skips
             }
             AsmByte(nr) => {
-                self.next_addr += nr;
                 let mut ret = vec![];
                 for _ in 0..nr {
                     ret.push(Byte(0b0000_0000));
